@@ -309,7 +309,7 @@ func runC11(c *Ctx) {
 		c.check(excluded, "L2-SENTINEL", fnName, "budget error excluded from error-handler dispatch", hc.Pos(), why,
 			"ErrExecutionLimitExceeded is a *postScriptError and reaches the error-handler dispatch: every builtin level being unwound runs the `interrupt` handler through executeOne, which increments NumOps again (counts past N+1)")
 		// L8: handler nesting
-		k, ok := upperBoundConst(domConds(hc.Block()), func(v ssa.Value) bool { return lenOfField(v, ia.T, "errors") })
+		k, ok := upperBoundConst(domConds(hc.Block()), func(v ssa.Value) bool { return lenOfField(v, ia.T, c.fld("intp.errors")) })
 		c.check(ok && k < 16, "L8-HANDLERNEST", fnName, "handler nesting bounded", hc.Pos(), fmt.Sprintf("len(errors) <= %d dominates the handler call", k),
 			"the nested error-handler invocation is not guarded by a constant bound on len(intp.errors)")
 	}
@@ -317,7 +317,7 @@ func runC11(c *Ctx) {
 	// ---------------- L3: execution depth gate
 	var depthStores []*ssa.Store
 	eachInstr(fn, func(ins ssa.Instruction) {
-		if st, ok := ins.(*ssa.Store); ok && isFieldAddr(st.Addr, ia.T, "execStackDepth") {
+		if st, ok := ins.(*ssa.Store); ok && isFieldAddr(st.Addr, ia.T, c.fld("intp.execDepth")) {
 			depthStores = append(depthStores, st)
 		}
 	})
@@ -327,13 +327,13 @@ func runC11(c *Ctx) {
 		if !ok || bo.Op != token.ADD {
 			continue
 		}
-		k, ok := upperBoundConst(domConds(st.Block()), isField("execStackDepth"))
+		k, ok := upperBoundConst(domConds(st.Block()), isField(c.fld("intp.execDepth")))
 		hasDefer := false
 		for _, ins := range st.Block().Instrs {
 			if d, ok := ins.(*ssa.Defer); ok {
 				for _, cl := range closuresOf(d.Call.Value) {
 					eachInstr(cl, func(i2 ssa.Instruction) {
-						if s2, ok := i2.(*ssa.Store); ok && isFieldAddr(s2.Addr, ia.T, "execStackDepth") {
+						if s2, ok := i2.(*ssa.Store); ok && isFieldAddr(s2.Addr, ia.T, c.fld("intp.execDepth")) {
 							if b2, ok := s2.Val.(*ssa.BinOp); ok && b2.Op == token.SUB {
 								hasDefer = true
 							}
@@ -616,7 +616,7 @@ func (c *Ctx) eexecNesting(ia *interpAnchors) {
 		refuses := false
 		entry := begin.Blocks[0]
 		if ifi, ok := entry.Instrs[len(entry.Instrs)-1].(*ssa.If); ok {
-			if m, ok := asCmp(cond{ifi.Cond, true, entry}); ok && m.op == token.NEQ && isFieldLoad(m.x, sT, "eexec") {
+			if m, ok := asCmp(cond{ifi.Cond, true, entry}); ok && m.op == token.NEQ && isFieldLoad(m.x, sT, c.fld("scanner.eexec")) {
 				if k, isC := constInt(m.y); isC && k == 0 {
 					if r, ok := entry.Succs[0].Instrs[len(entry.Succs[0].Instrs)-1].(*ssa.Return); ok && !isNilConst(r.Results[0]) {
 						refuses = true
@@ -626,7 +626,7 @@ func (c *Ctx) eexecNesting(ia *interpAnchors) {
 		}
 		setsActive := false
 		eachInstr(begin, func(ins ssa.Instruction) {
-			if st, ok := ins.(*ssa.Store); ok && isFieldAddr(st.Addr, sT, "eexec") {
+			if st, ok := ins.(*ssa.Store); ok && isFieldAddr(st.Addr, sT, c.fld("scanner.eexec")) {
 				if k, isC := constInt(st.Val); isC && k != 0 {
 					setsActive = true
 				}
@@ -911,13 +911,13 @@ func (c *Ctx) startFailValue(v ssa.Value, noPS *ssa.Global, sT *types.TypeName, 
 	if g := globalLoad(v); g != nil {
 		return g == noPS
 	}
-	if isFieldLoad(v, sT, "err") {
+	if isFieldLoad(v, sT, c.fld("scanner.err")) {
 		return false // unconditional return of the pending error: it may be nil or io.EOF
 	}
 	switch x := origin(v).(type) {
 	case *ssa.Phi:
 		for i, e := range x.Edges {
-			if isFieldLoad(e, sT, "err") {
+			if isFieldLoad(e, sT, c.fld("scanner.err")) {
 				// the pending read error may be returned only when it is neither nil nor io.EOF
 				notNil, notEOF := false, false
 				for _, cd := range edgeConds(x.Block().Preds[i], x.Block()) {
